@@ -52,9 +52,9 @@ def run(ctx):
     ctx.exhaustive = False
     if quick:
         # gated workers on nodes 2 and 3; about a quarter of the behaviours follow the relay script; value domain alternates
-        g.generate_and_replay(ctx, "C06", "Sim_c06.cfg", num_per_worker=30, run_depth=25, domains=("mixed",))
+        g.generate_and_replay(ctx, "C06", "Sim_c06.cfg", num_per_worker=25, run_depth=25, domains=("mixed",))
     else:
         g.generate_and_replay(ctx, "C06", "Sim_c06.cfg", num_per_worker=600, run_depth=30, timeout=3000, domains=("ring", "partition"))
         g.generate_and_replay(ctx, "C06", "Sim_c06_n2.cfg", num_per_worker=300, run_depth=30, timeout=3000, domains=("ring", "partition"))
-    g.record_and_validate(ctx, ntraces=5 if quick else 150, steps=50 if quick else 80, timeout=900 if quick else 3000, domain="mixed")
+    g.record_and_validate(ctx, ntraces=4 if quick else 150, steps=40 if quick else 80, timeout=900 if quick else 3000, domain="mixed")
     return "model_checking"
